@@ -13,6 +13,10 @@ EnvMask(i) == PreTs(i).obs.action_mask          \* the mask the implementation s
 MaskAllows(i) == EnvMask(i)[Ev(i).a + 1]
 InvalidOutcome(i) == LET e == Ev(i) IN St(e.s) = St(Pre(i)) /\ IsLast(e) /\ Rq(e) = 0
 
+(* mask_eq_legal: for EVERY item j, mask[j] = (item j unpacked /\ weights[j] <= remaining_budget), compared
+   exactly when Cfg.exact (dyadic generator).  With float32 numbers seen through fixed point (uniform, jitter
+   generators) the entry of an unpacked item is left undecided only when
+   |remaining_budget - weights[j]| <= 2 fixed-point units (Knapsack!Tie); packed items must always be masked out. *)
 C04(i) ==
   LET e == Ev(i) IN
   (IF e.ts.type # LAST
